@@ -222,6 +222,11 @@ DEFAULT_CFG = {
     "wall_jumps": False,
     "ra_ticks": 2,
     "frac": 0.0,
+    "hook_kind": "method",       # how on_metric / on_log / before_sleep are supplied: bound "method",
+                                 # functools "partial", or callable "object" without __qualname__
+    "timeout_class": "T",        # class the classifier stub gives a TimeoutError raised by the library
+    "repoint": False,            # during the first attempt the environment may re-point or detach
+                                 # policy.circuit_breaker (1 deviation)
     "rc_mode": "pure",           # "oneshot": the result classifier gives its verdict once per object;
                                  # asked again about the same object it says "success" (None)
     "strat_obj": False,          # strategies are objects exposing record_success / record_failure
@@ -266,6 +271,8 @@ class World:
         self.susp_after_throw = False
         self._last_op_exc = None
         self._abort_flag = False
+        self._none_class = None
+        self._repointed = None
         self._nesting = False
         self._nested_done = False
         self._forced = None
@@ -419,7 +426,7 @@ class World:
         spec = getattr(exc, "spec", None)
         i = self.ident(exc)
         if spec is None:
-            klass, ra = ("T" if isinstance(exc, TimeoutError) else "U"), None
+            klass, ra = (self.cfg["timeout_class"] if isinstance(exc, TimeoutError) else "U"), None
         else:
             klass, ra = spec
         self.intrude("classifier")
@@ -436,6 +443,8 @@ class World:
         i = self.ident(res)
         self.fault("rclassifier")
         fail = getattr(res, "fail", None)
+        if res is None:
+            fail = self._none_class
         if self.cfg["rc_mode"] == "oneshot" and fail is not None:
             if getattr(res, "asked", False):
                 fail = None
@@ -559,6 +568,11 @@ class World:
 
     def make_before_sleep(self, which):
         world = self
+        if not self.cfg["bs_async"] and self.cfg["hook_kind"] != "method":
+            def before_sleep_plain(ctx, delay):
+                world.trace.append(("bsleep", which, getattr(ctx, "attempt", None), ticks(delay)))
+                world.fault("before_sleep")
+            return self._as_hook(before_sleep_plain)
         if self.cfg["bs_async"]:
             async def before_sleep_async(ctx, delay):
                 world.trace.append(("bsleep", which, getattr(ctx, "attempt", None), ticks(delay)))
@@ -585,8 +599,9 @@ class World:
             exc = FAULT_TYPES[o]()
             self.trace.append(("sleep", which, ticks(s), t0, t0, self.reg(exc)))
             raise exc
-        E.advance(s)
-        E.advance(o * TAU)
+        if not self._nesting:   # a nested call is instantaneous (see _op_body)
+            E.advance(s)
+            E.advance(o * TAU)
         self.trace.append(("sleep", which, ticks(s), t0, self.rel()))
         self.maybe_flip("sleep")
 
@@ -676,7 +691,21 @@ class World:
         else:
             label = alphabet[self.ch.choose("op", len(alphabet), cfg["op_free"])] if len(alphabet) > 1 else alphabet[0]
         durs = cfg["durs"]
-        d = durs[self.ch.choose("dur", len(durs), cfg["dur_free"])] if len(durs) > 1 else durs[0]
+        if self._nesting:
+            d = 0   # a nested call is instantaneous: callbacks that take time are a separate dimension
+        else:
+            d = durs[self.ch.choose("dur", len(durs), cfg["dur_free"])] if len(durs) > 1 else durs[0]
+        if cfg["repoint"] and n == 1 and self._repointed is None and not self._nesting:
+            c = self.ch.choose("repoint", 3)
+            if c:
+                pol = next((o for o in self.retry_objs.values() if hasattr(o, "circuit_breaker")
+                            or hasattr(getattr(o, "policy", None), "circuit_breaker")), None)
+                tgt = pol if hasattr(pol, "circuit_breaker") else getattr(pol, "policy", None)
+                if tgt is not None:
+                    self._repointed = "detached" if c == 1 else "other"
+                    tgt.circuit_breaker = None if c == 1 else self.make_breaker(
+                        dict(cfg["breaker"], pre=()))
+                    self.trace.append(("repoint", self._repointed))
         t0 = self.rel()
         if not advance:
             return n, label, t0, d
@@ -694,6 +723,10 @@ class World:
             self._rec_op(("op", n, label, t0, t1, self.reg(v)))
             return v
         kind, _, rest = label.partition(":")
+        if kind == "rn":
+            self._none_class = rest
+            self._rec_op(("op", n, "r:" + rest, t0, t1, None))
+            return None
         if kind == "r":
             k, _, ra = rest.partition("+")
             v = Val(n, fail=k, ra=self.cfg["ra_ticks"] if ra else None)
@@ -702,7 +735,14 @@ class World:
         if kind == "x" and rest.endswith("@") and self._last_op_exc is not None:
             # the operation raises the very same exception object again (e.g. a cached failure)
             exc = self._last_op_exc
-            self._rec_op(("op", n, "x:" + exc.spec[0], t0, t1, self.ident(exc)))
+            k2 = rest.rstrip("@").partition("+")[0]
+            exc.spec = (k2, exc.spec[1])   # the cached error instance had its fields refreshed
+            code = STATUS_FOR.get(k2)
+            if code is not None:
+                exc.status = code
+            elif hasattr(exc, "status"):
+                del exc.status
+            self._rec_op(("op", n, "x:" + k2, t0, t1, self.ident(exc)))
             _raise_here(exc)
         if kind == "x":
             rest = rest.rstrip("@")
@@ -790,13 +830,27 @@ class World:
             kw["on_attempt_end"] = self.make_attempt_hook("policy", "end")
         return kw
 
+    def _as_hook(self, fn):
+        kind = self.cfg["hook_kind"]
+        if kind == "partial":
+            import functools
+            return functools.partial(fn)
+        if kind == "object":
+            class Hook:
+                __slots__ = ()
+
+                def __call__(self, *a, **kw):
+                    return fn(*a, **kw)
+            return Hook()
+        return fn
+
     def _call_kwargs(self, execute, deco=False):
         cfg = self.cfg
         kw = {}
         if cfg["metric"]:
-            kw["on_metric"] = self.on_metric
+            kw["on_metric"] = self._as_hook(self.on_metric)
         if cfg["log"]:
-            kw["on_log"] = self.on_log
+            kw["on_log"] = self._as_hook(self.on_log)
         if cfg["operation"]:
             kw["operation"] = cfg["operation"]
         if cfg["abort"]:
@@ -838,7 +892,7 @@ class World:
                 default_strategy=kw.get("strategy"), class_strategies=kw.get("strategies"),
                 result_classifier=kw.get("result_classifier"), sleep=kw.get("sleep"),
                 before_sleep=kw.get("before_sleep"), sleeper=kw.get("sleeper"),
-                budget=kw.get("budget"))
+                budget=kw.get("budget"), attempt_timeout_s=kw.get("attempt_timeout_s"))
             cls = {"RetryCfg": Retry, "AsyncRetryCfg": AsyncRetry, "RetryPolicyCfg": RetryPolicy,
                    "AsyncRetryPolicyCfg": AsyncRetryPolicy}[base]
             obj = cls.from_config(rc, classifier=self.classifier)
@@ -854,6 +908,30 @@ class World:
             obj = cls(**self._retry_kwargs(is_async, with_attempt_hooks=False))
             if self.breaker is not None:
                 obj.policy.circuit_breaker = self.breaker
+        elif base in ("RetrySet", "AsyncRetrySet"):
+            # everything that is a public attribute is (re)assigned after construction
+            from datetime import timedelta
+            cls = AsyncRetry if is_async else Retry
+            kw = self._retry_kwargs(is_async)
+            late = {k: kw.pop(k) for k in ("result_classifier", "sleep", "before_sleep", "sleeper",
+                                           "budget", "on_attempt_start", "on_attempt_end") if k in kw}
+            true_deadline = kw["deadline_s"]
+            true_m, true_mu = kw["max_attempts"], kw["max_unknown_attempts"]
+            true_pc = kw.pop("per_class_max_attempts", None)
+            kw.update(deadline_s=60.0, max_attempts=6, max_unknown_attempts=2)
+            obj = cls(**kw)
+            obj.deadline = timedelta(seconds=true_deadline)
+            obj.max_attempts = true_m
+            obj.max_unknown_attempts = true_mu
+            obj.per_class_max_attempts = dict(true_pc or {})
+            for k, val in late.items():
+                setattr(obj, k, val)
+        elif base in ("PolicySet", "AsyncPolicySet"):
+            # the breaker is attached by attribute assignment after construction
+            rcls = AsyncRetry if is_async else Retry
+            pcls = AsyncPolicy if is_async else Policy
+            obj = pcls(retry=rcls(**self._retry_kwargs(is_async)))
+            obj.circuit_breaker = self.breaker
         elif base in ("RetryPolicySet", "AsyncRetryPolicySet"):
             # the wrapper is built bare and configured by attribute assignment afterwards
             cls = AsyncRetryPolicy if is_async else RetryPolicy
@@ -1046,65 +1124,89 @@ class World:
 
 
 class _FakeFuture:
-    def __init__(self, world, func):
+    """Future of the owned executor.  The task starts when the executor's single worker is free;
+    a task that exceeds the caller's timeout keeps the worker busy until it would have finished."""
+
+    def __init__(self, world, executor, func):
         self.world = world
-        t_before = world.clock.now
-        n_before = len(world.trace)
+        self.executor = executor
+        self.func = func
+        self.state = "pending"   # pending | finished | timed_out | never_started
+        self.value = None
+        self.exc = None
+
+    def _run(self, timeout):
+        import concurrent.futures as _cf
+        w = self.world
+        now = w.clock.now
+        start = max(now, self.executor.busy_until)
+        if timeout is not None and start - now > timeout:
+            # still queued behind a hung attempt when the caller gives up: never invoked
+            w.clock.now = now + timeout
+            w.trace.append(("queued-timeout", w.rel()))
+            self.state = "never_started"
+            raise _cf.TimeoutError()
+        w.clock.now = start
+        n_before = len(w.trace)
         try:
-            self.value, self.exc = func(), None
+            self.value, self.exc = self.func(), None
         except BaseException as e:  # noqa: BLE001
             self.value, self.exc = None, e
-        self.t_before = t_before
-        self.n_before = n_before
-        self.duration = world.clock.now - t_before
-        self.timed_out = False
-
-    def result(self, timeout=None):
-        w = self.world
-        if timeout is not None and self.duration > timeout:
-            # the attempt is still "running" in its thread: the caller gives up after `timeout`
-            self.timed_out = True
-            w.clock.now = self.t_before + timeout
-            for i in range(len(w.trace) - 1, self.n_before - 1, -1):
+        finish = w.clock.now
+        if timeout is not None and finish - now > timeout:
+            self.state = "timed_out"
+            self.executor.busy_until = finish
+            w.clock.now = now + timeout
+            for i in range(len(w.trace) - 1, n_before - 1, -1):
                 r = w.trace[i]
                 if r[0] == "op":
                     w.trace[i] = ("op", r[1], "cut", r[3], w.rel(), None)
                     break
-            import concurrent.futures as _cf
+            raise _cf.TimeoutError()
+        self.state = "finished"
+
+    def result(self, timeout=None):
+        import concurrent.futures as _cf
+        if self.state == "pending":
+            self._run(timeout)
+        elif self.state in ("timed_out", "never_started"):
             raise _cf.TimeoutError()
         if self.exc is not None:
             raise self.exc
         return self.value
 
     def cancel(self):
-        return False
+        return self.state in ("pending", "never_started")
 
     def done(self):
-        return not self.timed_out
+        return self.state == "finished"
 
     def cancelled(self):
         return False
 
     def running(self):
-        return self.timed_out
+        return self.state == "timed_out"
 
     def exception(self, timeout=None):
-        if self.timed_out:
-            import concurrent.futures as _cf
+        import concurrent.futures as _cf
+        if self.state == "pending":
+            self._run(timeout)
+        if self.state != "finished":
             raise _cf.TimeoutError()
         return self.exc
 
 
 class _FakeExecutor:
-    """Owned replacement for ThreadPoolExecutor inside redress.policy.runner.sync_core."""
+    """Owned replacement for ThreadPoolExecutor inside redress.policy.runner.sync_core: one
+    worker per executor *instance*, virtual time."""
 
     world = None
 
     def __init__(self, *a, **kw):
-        pass
+        self.busy_until = 0.0
 
     def submit(self, func, *a, **kw):
-        return _FakeFuture(_FakeExecutor.world, lambda: func(*a, **kw))
+        return _FakeFuture(_FakeExecutor.world, self, lambda: func(*a, **kw))
 
     def shutdown(self, *a, **kw):
         pass
